@@ -83,3 +83,28 @@ def to_text(case, scheme="plain"):
     v, t, prods = case
     nm = list(vn) + list(tn)
     return "; ".join("%s -> %s" % (nm[h], " ".join(nm[s] for s in body) or "eps") for h, body in prods) or "<no productions>"
+
+
+def long_triples():
+    """one variable S, terminals a,b,c: every set of three productions S -> x y z (bodies of length exactly 3 over
+    {S,a,b,c}); aimed at the binarisation (fresh variable numbering, suffix sharing between several long productions)"""
+    bodies = list(product(range(4), repeat=3))
+    for sub in combinations(bodies, 3):
+        yield (1, 3, tuple((0, b) for b in sub))
+
+
+def suffix_triples():
+    """two long productions (lengths 3-4) where one body is a proper suffix of the other or they share a suffix of
+    length >= 2, plus one short extra production (body <= 1) for one of the two variables"""
+    cand = candidates(2, 2, 4, 3)
+    short = candidates(2, 2, 1, 0)
+    k = 0
+    for i in range(len(cand)):
+        for j in range(i + 1, len(cand)):
+            (h1, b1), (h2, b2) = cand[i], cand[j]
+            if b1[-2:] != b2[-2:]:
+                continue
+            if not (b2[-len(b1):] == b1 or b1[-len(b2):] == b2):
+                continue        # whole-body suffix only (keeps the family small)
+            for e in short:
+                yield (2, 2, tuple(sorted([cand[i], cand[j], e])))
